@@ -71,13 +71,20 @@ class FlowGraph(DiGraph):
 
         # Add between nodes and follow up nodes:
         node = None
+        previous = None
         for ins in instrs:
             if self.has_node(ins):
-                node = self.get_node(ins)
+                to_node = self.get_node(ins)
+                # An instruction that does not jump falls through into the
+                # leader that follows it:
+                if previous is not None and not previous.jumps:
+                    self.add_edge(node, to_node)
+                node = to_node
             if ins.jumps:
                 for j in ins.jumps:
                     to_node = self.get_node(j)
                     self.add_edge(node, to_node)
+            previous = ins
 
         # Add other instruction into leader nodes:
         node = None
